@@ -74,17 +74,19 @@ def layout_for(dind, eol):
 def check_model(text, exp, renderer, acc, case):
     acc.n += 1
     acc.validated += 1
-    a = I.parse(text, acc=acc)
-    if a[0] != 'ok':
-        acc.violation('docstring-rejected', case, 'document with an opaque doc string rejected: %s' % (a[1][:2],))
-        return
     acc.nontrivial += 1
-    got, want = project(a[1]), project(exp)
-    if got != want:
-        p, x, y = first_diff(got, want)
-        leaf = [s for s in p.split('/') if s and not s.isdigit()]
-        sig = 'docstring-' + leaf[-1] if 'docString' in p else 'after-docstring'
-        acc.violation(sig, case, 'AST differs from the document model at %s' % p, observed=x, expected=y)
+    want = project(exp)
+    for route, a in I.parse_routes(text, 'en', acc):
+        if a[0] != 'ok':
+            acc.violation('docstring-rejected', case, '%s: document with an opaque doc string rejected: %s' % (route, a[1][:2]))
+            return
+        got = project(a[1])
+        if got != want:
+            p, x, y = first_diff(got, want)
+            leaf = [s for s in p.split('/') if s and not s.isdigit()]
+            sig = 'docstring-' + leaf[-1] if 'docString' in p else 'after-docstring'
+            acc.violation(sig, case, '%s: AST differs from the document model at %s' % (route, p), observed=x, expected=y)
+            return
     # location of the doc string = its opening delimiter
     gl = [s['docString']['location'] for s in _steps(a[1]) if 'docString' in s]
     wl = [s['docString']['location'] for s in _steps(exp) if 'docString' in s]
@@ -140,6 +142,51 @@ def job_content(nlines, first, combos_name):
     return acc
 
 
+@worker
+def job_two(d1i, d2i):
+    """Two doc strings in one document (same or different delimiters, different indentation): the second one must be
+    read exactly like a first one - delimiter, escapes and indentation of the earlier one must not linger."""
+    acc = Acc()
+    d1, d2 = DELIMS[d1i], DELIMS[d2i]
+    text = None
+    singles = [()] + [((f, r),) for f in FORMS for r in RELS]
+    pairs = [((f, 'equal'), (g, 'equal')) for f in ('ESC', 'ESC-OTHER', 'OTHER', '   ') for g in ('ESC', 'ESC-OTHER', 'OTHER', 'text  ')]
+    for c1 in [(), (('ESC', 'equal'),), (('ESC-OTHER', 'more'),), (('plain', 'less'),)]:
+        for c2 in singles + pairs:
+            for ind1, ind2 in ((2, 2), (5, 2), (2, 5), (0, 5)):
+                l1 = [content_line(f if f != 'plain' else 'text  ', r, d1, ind1) for f, r in c1]
+                l2 = [content_line(f, r, d2, ind2) for f, r in c2]
+                if any(l is None for l in l1 + l2):
+                    continue
+                # two steps in two scenarios so that each doc string can have its own indentation
+                st1 = S('g', arg=M.doc(l1, delimiter=d1, media='m1'))
+                st2 = S('h', arg=M.doc(l2, delimiter=d2))
+                lay1 = layout_for(ind1, '\n')
+                # render the two scenarios with different layouts by rendering twice and splicing is not possible with one renderer:
+                # use raw lines for the second doc string at its own indentation instead
+                raw2 = [('raw', ' ' * ind2 + d2)]
+                model = M.feature('f', [M.scenario('s1', [st1]), M.scenario('s2', [st2], desc=[T_('  description after a doc string')])])
+                text, exp, r = M.render(model, M.Layout(indent=('', ' ', '  ', ' ' * max(ind1, 0), ' ' * max(ind1, 0))))
+                if ind1 != ind2:
+                    continue_with = layout_for(ind2, '\n')
+                    # re-render with the second indentation for level 3 only when both are equal; otherwise use a per-document layout
+                    model = M.feature('f', [M.scenario('s1', [S('g', arg=M.doc([x if isinstance(x, tuple) else x for x in l1], delimiter=d1, media='m1'))]),
+                                            M.rule('r', [M.scenario('s2', [st2], desc=[T_('      description after a doc string')])])])
+                    text, exp, r = M.render(model, M.Layout(indent=('', ' ', '  ', ' ' * ind1, ' ' * ind2)))
+                if not M.roles_ok(r):
+                    acc.counters['models_discarded_role_mismatch'] += 1
+                    continue
+                acc.states.add((d1, d2, ind1, ind2))
+                acc.outcomes['two doc strings'] += 1
+                check_model(text, exp, r, acc, {'kind': 'text', 'text': text})
+    acc.sample({'text': text})
+    return acc
+
+
+def T_(s):
+    return ('text', s)
+
+
 def run(ctx):
     ctx.alphabet = {'line_forms': FORMS, 'indentation_relations': RELS, 'delimiters': DELIMS, 'delimiter_indent': INDENTS, 'media': MEDIA, 'hosts': HOSTS, 'followers': FOLLOW}
     ctx.rule = ('doc-string models: all content sequences of <= n lines over line form x indentation relation, x delimiter x delimiter indentation x (media, host, follower, line end) combinations; '
@@ -149,6 +196,7 @@ def run(ctx):
     ctx.level('content 0 lines', [job_content.job(0, 0, 'all')])
     ctx.level('content 1 line', [job_content.job(1, i, 'all') for i in range(nv)])
     ctx.level('content 2 lines', [job_content.job(2, i, 'quick' if ctx.quick else 'all') for i in range(nv)])
+    ctx.level('two doc strings in one document', [job_two.job(a, b) for a in (0, 1) for b in (0, 1)])
     if not ctx.quick:
         ctx.level('content 3 lines', [job_content.job(3, i, 'quick') for i in range(nv)])
 
